@@ -1,3 +1,81 @@
+/-
+C04 — Persisted state reads back identically (read side).
+
+Model: `Gossamer.TrieHeap` (`writeDirty`, `MTrie.writeDirty`), `Gossamer.TrieHeap.loadF`,
+`getFromDB`/`gfdF` (`TrieHeapDB`, after the `fix:` commits), with the node decoder of C07.
+
+* `C04_getFromDB`        — if the database represents the trie `t` under `root` (`RootRep`: decoded
+                           nodes, children fetched by hash or inlined, hashed values fetched under
+                           `partialKey ‖ hash`), `GetFromDB(db, root, key)` returns exactly the
+                           in-memory `Get(key)` — for EVERY key, present or absent.
+* `C04_getFromDB_stored` — the same from the WRITER's view: it suffices that the database holds, under
+                           its Blake2b hash, the encoding of every node whose encoding has ≥ 32 bytes
+                           and of the root, and every hashed value (`Sto`): decoding is then the real
+                           decoder (`C07_node_roundtrip`), inlined sub-branches and V1 values included.
+* `C04_absent`           — a key that the in-memory trie does not hold reads as absent (nil, no error).
+* `C04_atNode`           — the recursion `getFromDBAtNode` against `retrieve`, at any node.
+
+The write side (`WriteDirty` incl. incremental writes of successive snapshots, `Load`) is tied to the
+Go code by the differential run only; see the level note.
+-/
+import Gossamer.Lib.C04Stored
 import Gossamer.Model.C04
 namespace Gossamer.C04
+open Gossamer Gossamer.Trie Gossamer.TrieHeap
+
+/-- `getFromDBAtNode` on a decoded node that represents `t` reads what `retrieve` reads on `t` -/
+theorem C04_atNode (db : DB) (t : Trie) (n : TrieCodec.Node) (key : Bytes) (f : Nat)
+    (h : Rep db t n) (hk : IsNib key) (hf : key.length < f) :
+    gfdF db f n key = some (retrieve t (key.map toNib)) := gfd_rep db t n key f h hk hf
+
+/-- **`GetFromDB` = in-memory `Get`**, for every key, when the database represents the trie -/
+theorem C04_getFromDB (H : Bytes → Bytes) (db : DB) (root : Bytes) (t : Trie)
+    (h : RootRep H db root t) (key : Bytes) : getFromDB H db root key = some (Trie.get t key) :=
+  getFromDB_rep H db root t h key
+
+/-- **`GetFromDB` = in-memory `Get`** when the database holds the encodings of the nodes of `t` -/
+theorem C04_getFromDB_stored (H : Bytes → Bytes) (hH : ∀ m, (H m).length = 32) (db : DB) (t : Trie)
+    (N : TrieCodec.Node) (hs : Sto H db t N) (hwf : C07.WF N) (hne : t ≠ .nil)
+    (hroot : H (TrieCodec.encode H N) ≠ H [0])
+    (hdb : dbGet db (H (TrieCodec.encode H N)) = some (TrieCodec.encode H N)) (key : Bytes) :
+    getFromDB H db (H (TrieCodec.encode H N)) key = some (Trie.get t key) :=
+  getFromDB_of_sto H hH db t N hs hwf hne hroot hdb key
+
+/-- absent keys read as absent: `nil` and no error -/
+theorem C04_absent (H : Bytes → Bytes) (db : DB) (root : Bytes) (t : Trie) (h : RootRep H db root t)
+    (key : Bytes) (ha : Trie.get t key = none) : getFromDB H db root key = some none := by
+  rw [C04_getFromDB H db root t h key, ha]
+
+/-- the empty state: every key is absent -/
+theorem C04_empty (H : Bytes → Bytes) (db : DB) (key : Bytes) : getFromDB H db (H [0]) key = some none := by
+  have := C04_getFromDB H db (H [0]) .nil (Or.inl ⟨rfl, rfl⟩) key
+  rw [this]; rfl
+
+/-! ### a concrete persisted state (V1, a hashed 40-byte value, an inlined sub-branch) -/
+
+/-- a 32-byte stand-in for the hash function, good enough for an example -/
+def H1 : Bytes → Bytes := fun m => (m ++ List.replicate 32 0).take 32
+
+def v40 : Bytes := List.replicate 40 7
+
+/-- `ver h0 1; put 1234 <40 bytes>; put 5610 01; put 5611 02; put 5620 03; wd h0` -/
+def exOps : List Op :=
+  [.ver 0 Ver.v1, .put 0 [0x12, 0x34] v40, .put 0 [0x56, 0x10] [1], .put 0 [0x56, 0x11] [2],
+   .put 0 [0x56, 0x20] [3], .wd 0]
+
+def exState : St := exOps.foldl (fun s op => (stepModel H1 s op).1) St.init
+
+def exRoot : Bytes := ((exState.ts[0]?).bind (fun m => (hash H1 exState.hp m.t).2)).getD []
+
+set_option maxRecDepth 1000000 in
+unseal encodeKids wdKids in
+/-- the model's `WriteDirty` followed by the model's `GetFromDB`: the hashed value comes back as the
+    value, keys below the inlined sub-branch are found, absent neighbours read nil -/
+example : getFromDB H1 exState.db exRoot [0x12, 0x34] = some (some v40) ∧
+    getFromDB H1 exState.db exRoot [0x56, 0x10] = some (some [1]) ∧
+    getFromDB H1 exState.db exRoot [0x56, 0x20] = some (some [3]) ∧
+    getFromDB H1 exState.db exRoot [0x14] = some none ∧
+    getFromDB H1 exState.db exRoot [0x56] = some none := by
+  refine ⟨by decide, by decide, by decide, by decide, by decide⟩
+
 end Gossamer.C04
